@@ -60,6 +60,11 @@ inductive Act
   deriving DecidableEq, Repr
 
 structure Facts where
+  /-- `Rt::add` is all or nothing: the passes run on a copy of the runtime
+      (`let mut rt = self.clone(); rt.<passes>(items)?; *self = rt; Ok(())`) that
+      replaces it only when every pass succeeded.  `false`: the passes run on
+      `&mut self` and an error leaves what they had inserted. -/
+  addAtomic : Bool
   /-- `Rt::add`: the passes in call order with their scope argument -/
   addCalls : List (PassFn × ScopeExpr)
   /-- every `match item` arm of every pass, in source order -/
@@ -78,6 +83,7 @@ structure Facts where
     `walk`/`passLeaf`, `declMethods`, `declImplConstants`, `declImports`,
     `implScope`, `declareImport`/`walkPath` under `Cfg.fixed`) -/
 def asModelled : Facts where
+  addAtomic := true
   addCalls := [(.declareModules, .noneArg), (.declareTypes, .root), (.declareFunctions, .root),
     (.declareConstants, .root), (.declareImports, .root)]
   arms := [
